@@ -1377,6 +1377,43 @@ def gen_simd_kernels(repo):
         sk = ' ; '.join('%s(%s)' % (c, ' '.join(a.split())) for c, a in calls)
         out += '/-- %s: %s: every intrinsic / helper call with its arguments, in textual order -/\n' % (f1, fn)
         out += 'def u8x1_sse4_%s_skeleton : String := "%s"\n\n' % ('one_row' if fn.endswith('one_row') else 'four_rows', sk.replace('"', '\\"'))
+    # two-channel 8-bit images (U8x2), SSE4.1: masks of both kernels, call sequences, the saturating final addition
+    f2 = 'src/convolution/u8x2/sse4.rs'
+    with open(os.path.join(repo, f2)) as fh:
+        src2 = fh.read()
+    for fn, expect, tag in (('horiz_convolution_four_rows', ['sh1', 'sh2'], 'four'),
+                            ('horiz_convolution_one_row', ['pix_sh1', 'coeff_sh1', 'pix_sh2', 'coeff_sh2', 'pix_sh3'], 'one')):
+        m = re.search(r'unsafe fn %s\(.*?\n\}' % fn, src2, re.S)
+        if not m:
+            raise TranslationError("%s: %s not found" % (f2, fn))
+        body = re.sub(r'//[^\n]*', '', m.group(0))
+        body = re.sub(r'/\*.*?\*/', '', body, flags=re.S)
+        masks = []
+        for a in re.finditer(r'let (\w*sh\d+) = _mm_set_epi8\(([^;]*?)\);', body, re.S):
+            vals = [int(x) for x in a.group(2).replace('\n', ' ').split(',') if x.strip()]
+            if len(vals) != 16:
+                raise TranslationError("%s: mask %s does not have 16 entries" % (f2, a.group(1)))
+            masks.append((a.group(1), list(reversed(vals))))
+        if [n for n, _ in masks] != expect:
+            raise TranslationError("%s: %s: expected the masks %s, found %s" % (f2, fn, expect, [n for n, _ in masks]))
+        for n, v in masks:
+            out += '/-- %s: %s: shuffle mask %s, byte 0 first -/\n' % (f2, fn, n)
+            out += 'def u8x2_sse4_%s_%s : List Int := [%s]\n\n' % (tag, n, ', '.join(str(x) if x >= 0 else '(%d)' % x for x in v))
+        calls = re.findall(r'\b(_mm_\w+(?:::<\w+>)?|simd_utils::\w+|chunks_exact|remainder|first|is_empty|saturating_add|set_dst_pixel|normalizer\.clip|normalizer\.precision)\(([^()]*(?:\([^()]*\)[^()]*)*)\)', body)
+        sk = ' ; '.join('%s(%s)' % (c, ' '.join(a.split())) for c, a in calls if not c.endswith('set_epi8'))
+        extra = ''
+        if tag == 'one':
+            # the scalar gathering of the last 1..3 pixels and the final lane pairing
+            extra = ' | ' + ' ; '.join(' '.join(x.split()) for x in re.findall(r'(pixels\[i \* 2(?: \+ 1)?\] = pixel\[\d\] as i16|coeffs\[i\] = coeff|let [al]32 = [^;]*|dst_row\.get_unchecked_mut\(dst_x\)\.0 = \[[^\]]*\])', body))
+        out += '/-- %s: %s: every intrinsic / helper call with its arguments, in textual order -/\n' % (f2, fn)
+        out += 'def u8x2_sse4_%s_skeleton : String := "%s%s"\n\n' % ('four_rows' if tag == 'four' else 'one_row', sk.replace('"', '\\"'), extra.replace('"', '\\"'))
+    m = re.search(r'unsafe fn set_dst_pixel\(.*?\n\}', src2, re.S)
+    if not m:
+        raise TranslationError("%s: set_dst_pixel not found" % f2)
+    body = re.sub(r'//[^\n]*', '', m.group(0))
+    stm = [' '.join(x.split()) for x in body[body.index('{') + 1:body.rindex('}')].split(';') if x.strip()]
+    out += '/-- %s: set_dst_pixel: its statements -/\n' % f2
+    out += 'def u8x2_sse4_set_dst_pixel : String := "%s"\n\n' % ' ; '.join(stm).replace('"', '\\"')
     # the vertical pass for 8-bit components (all four u8 pixel types)
     f = 'src/convolution/vertical_u8/sse4.rs'
     with open(os.path.join(repo, f)) as fh:
